@@ -64,7 +64,9 @@ def theorem_names(module):
         m = re.match(r"\s*end\s+(\S+)", line)
         if m and ns and ns[-1].split(".")[-1] == m.group(1).split(".")[-1]:
             ns.pop(); continue
-        m = re.match(r"\s*(?:@\[[^\]]*\]\s*)?(?:private\s+|protected\s+)?(?:noncomputable\s+)?theorem\s+([^\s:({\[]+)", line)
+        if re.match(r"\s*(?:@\[[^\]]*\]\s*)?private\s+", line):
+            continue      # private helper lemmas cannot be named from outside; they are covered through their users
+        m = re.match(r"\s*(?:@\[[^\]]*\]\s*)?(?:protected\s+)?(?:noncomputable\s+)?theorem\s+([^\s:({\[]+)", line)
         if m:
             nm = m.group(1)
             if nm.startswith("_root_."):
